@@ -372,6 +372,10 @@ def _operands(doc):
                 break
         if segs:
             out.append(segs)
+            if segs[-1][0] == "index" and is_seq(parent):
+                # the same element counted from the end: a delete that
+                # matches one position under both spellings removes it once
+                out.append(segs[:-1] + [("index", segs[-1][1] - len(parent))])
     out.append([("all",)])
     out.append([("key", "a"), ("all",)])
     return out
